@@ -50,6 +50,174 @@ class Unsupported(Exception):
     """Construct outside the supported subset -> the check is UNDECIDED, never a verdict."""
 
 
+_nth_cache = {}
+
+
+def _has_nth_split(t):
+    k = t.get_id()
+    r = _nth_cache.get(k)
+    if r is None:
+        if z3.is_app(t) and t.decl().name() in ('seq.nth_i', 'seq.nth_u'):
+            r = True
+        elif z3.is_quantifier(t):
+            r = _has_nth_split(t.body())
+        else:
+            r = any(_has_nth_split(c) for c in t.children())
+        if len(_nth_cache) > 300000:
+            _nth_cache.clear()
+        _nth_cache[k] = (r, t)       # the term is kept alive: AST ids are recycled after collection
+        return r
+    return r[0]
+
+
+_cn_cache = {}
+
+
+def _contains_nth(t):
+    k = t.get_id()
+    r = _cn_cache.get(k)
+    if r is None:
+        if z3.is_app(t) and t.decl().kind() == z3.Z3_OP_SEQ_NTH:
+            r = True
+        elif z3.is_quantifier(t):
+            r = _contains_nth(t.body())
+        else:
+            r = any(_contains_nth(c) for c in t.children())
+        if len(_cn_cache) > 300000:
+            _cn_cache.clear()
+        _cn_cache[k] = (r, t)
+        return r
+    return r[0]
+
+
+_ss_cache = {}
+
+
+def ssimp(t):
+    """Simplification that never splits seq.nth into nth_i / nth_u.  z3's rewriter does that case split and
+    hoists the resulting if-then-else, which hides the structure  xs ++ [y]  from the quantifier decomposition
+    and from E-matching.  Terms without seq.nth go to z3.simplify; others are rebuilt bottom-up with the few
+    local rules the engine needs (accessor-of-constructor, recognisers, nth of a literal sequence, constant
+    conditions)."""
+    if not _contains_nth(t):
+        return z3.simplify(t)
+    k = t.get_id()
+    r = _ss_cache.get(k)
+    if r is not None:
+        return r[0]
+    r = _ssimp(t)
+    if len(_ss_cache) > 200000:
+        _ss_cache.clear()
+    _ss_cache[k] = (r, t)
+    return r
+
+
+def _seq_units(sq):
+    """list of element terms if sq is a literal sequence (Unit / Concat of Units / Empty), else None"""
+    if not z3.is_app(sq):
+        return None
+    kd = sq.decl().kind()
+    if kd == z3.Z3_OP_SEQ_EMPTY:
+        return []
+    if kd == z3.Z3_OP_SEQ_UNIT:
+        return [sq.arg(0)]
+    if kd == z3.Z3_OP_SEQ_CONCAT:
+        out = []
+        for c in sq.children():
+            u = _seq_units(c)
+            if u is None:
+                return None
+            out.extend(u)
+        return out
+    return None
+
+
+def _ssimp(t):
+    if z3.is_quantifier(t) or not z3.is_app(t) or t.num_args() == 0:
+        return t
+    ch = [ssimp(c) for c in t.children()]
+    d = t.decl()
+    kd = d.kind()
+    name = d.name()
+    # nth of a literal sequence at a literal position
+    if kd == z3.Z3_OP_SEQ_NTH:
+        units = _seq_units(ch[0])
+        if units is not None and z3.is_int_value(ch[1]):
+            i = ch[1].as_long()
+            if 0 <= i < len(units):
+                return units[i]
+        return z3.SeqRef.__getitem__(ch[0], ch[1]) if False else ch[0][ch[1]]
+    if kd == z3.Z3_OP_SEQ_LENGTH:
+        units = _seq_units(ch[0])
+        if units is not None:
+            return z3.IntVal(len(units))
+    # datatype accessors / recognisers on constructor applications
+    if kd == z3.Z3_OP_DT_ACCESSOR and z3.is_app(ch[0]) and ch[0].decl().kind() == z3.Z3_OP_DT_CONSTRUCTOR:
+        c = ch[0]
+        cons = c.decl()
+        dt = c.sort()
+        for ci in range(dt.num_constructors()):
+            if dt.constructor(ci).name() == cons.name():
+                for ai in range(cons.arity()):
+                    if dt.accessor(ci, ai).name() == name:
+                        return c.arg(ai)
+    if kd in (z3.Z3_OP_DT_RECOGNISER, z3.Z3_OP_DT_IS) and z3.is_app(ch[0]) and \
+            ch[0].decl().kind() == z3.Z3_OP_DT_CONSTRUCTOR:
+        dt = ch[0].sort()
+        for ci in range(dt.num_constructors()):
+            if dt.recognizer(ci).eq(d) or (kd == z3.Z3_OP_DT_IS and d.params() and False):
+                return z3.BoolVal(dt.constructor(ci).name() == ch[0].decl().name())
+        # is(C, x): compare by printing the recogniser's constructor
+        try:
+            target = d.params()[0].name()
+            return z3.BoolVal(target == ch[0].decl().name())
+        except Exception:       # noqa
+            pass
+    if kd == z3.Z3_OP_ITE:
+        if z3.is_true(ch[0]):
+            return ch[1]
+        if z3.is_false(ch[0]):
+            return ch[2]
+        if ch[1].eq(ch[2]):
+            return ch[1]
+    if kd == z3.Z3_OP_AND:
+        if any(z3.is_false(c) for c in ch):
+            return z3.BoolVal(False)
+        ch2 = [c for c in ch if not z3.is_true(c)]
+        if not ch2:
+            return z3.BoolVal(True)
+        return ch2[0] if len(ch2) == 1 else z3.And(*ch2)
+    if kd == z3.Z3_OP_OR:
+        if any(z3.is_true(c) for c in ch):
+            return z3.BoolVal(True)
+        ch2 = [c for c in ch if not z3.is_false(c)]
+        if not ch2:
+            return z3.BoolVal(False)
+        return ch2[0] if len(ch2) == 1 else z3.Or(*ch2)
+    if kd == z3.Z3_OP_NOT:
+        if z3.is_true(ch[0]):
+            return z3.BoolVal(False)
+        if z3.is_false(ch[0]):
+            return z3.BoolVal(True)
+    if kd == z3.Z3_OP_IMPLIES:
+        if z3.is_false(ch[0]) or z3.is_true(ch[1]):
+            return z3.BoolVal(True)
+        if z3.is_true(ch[0]):
+            return ch[1]
+    if kd == z3.Z3_OP_EQ:
+        if ch[0].eq(ch[1]):
+            return z3.BoolVal(True)
+        # distinct constructors / equal constructors
+        a, b_ = ch
+        if z3.is_app(a) and z3.is_app(b_) and a.decl().kind() == z3.Z3_OP_DT_CONSTRUCTOR and \
+                b_.decl().kind() == z3.Z3_OP_DT_CONSTRUCTOR and a.decl().name() != b_.decl().name():
+            return z3.BoolVal(False)
+    try:
+        return d(*ch)
+    except Exception:       # noqa
+        return t
+
+
 _ALLOC = [0]
 
 
@@ -257,7 +425,7 @@ def elem_value(owner, term):
     if w is not None:
         return w(term)
     if getattr(owner, 'elem', 'any') == 'str':
-        t = z3.simplify(term)
+        t = ssimp(term)
         return t.as_string() if z3.is_string_value(t) else SStr(t)
     return lower(term)
 
@@ -327,6 +495,7 @@ class VComp:
 # helpers
 
 _key_repr = z3.Function('key_repr', PV, z3.StringSort())
+dict_keys = z3.Function('dict_keys', PVArr, PVSeq)     # key order of a symbolically indexed dict (unspecified)
 NONSTR = '\x00'     # prefix of the index of a non-string key (never a prefix of a MIB / symbol name)
 
 
@@ -338,7 +507,7 @@ def kenc_t(t):
     """Index of a dict / set key given as PyVal term.  A string key is its own index; int keys get a
     NUL-prefixed numeral; other key types share the uninterpreted key_repr encoding (assumption A-keys:
     keys of symbolically indexed dicts are str or int)."""
-    t = z3.simplify(t)
+    t = ssimp(t)
     if z3.is_app(t) and t.sort() == PV:
         d = t.decl().name()
         if d == 'PStr':
@@ -420,7 +589,7 @@ def lift(v):
         v.frozen = True
         if v.arr is None:
             return PV.PDict(seq_of([lift(k) for k in v.keys]), v.to_arr())
-        return PV.PDict(z3.FreshConst(PVSeq, 'keys'), v.arr)
+        return PV.PDict(dict_keys(v.arr), v.arr)
     if isinstance(v, VSet):
         v.frozen = True
         return PV.PSet(v.to_arr())
@@ -439,7 +608,7 @@ def lift(v):
 
 def lower(t):
     """PyVal term -> value (typed leaf when the constructor is syntactically known)."""
-    t = z3.simplify(t)
+    t = ssimp(t)
     if z3.is_app(t) and t.sort() == PV:
         d = t.decl().name()
         if d == 'PNone':
@@ -512,7 +681,7 @@ def mkbool(t):
     """z3 Bool -> Python bool when decided syntactically, else SBool."""
     if isinstance(t, bool):
         return t
-    t = z3.simplify(t)
+    t = ssimp(t)
     if z3.is_true(t):
         return True
     if z3.is_false(t):
